@@ -45,13 +45,22 @@ Proof.
       assert (q + 1 < k) by nia. nia.
 Qed.
 
-(* the function translated from /repo's current source is the one reasoned about *)
+(* The function translated from /repo's current source computes what [window_end_spec] computes.
+   Proved semantically (case split on every test + linear arithmetic over the division equations), so an
+   algebraically equivalent rewrite of the Python function (divmod, align_to + period*(k+1), ...) keeps it. *)
 Lemma window_end_as_translated : forall now period align,
+  0 < period ->
   calculate_window_end now period align = window_end_spec now period align.
 Proof.
-  intros now period align. unfold calculate_window_end, window_end_spec.
-  destruct align as [a|]; [|reflexivity].
-  destruct ((now - a) mod period =? 0); reflexivity.
+  intros now period align Hp. unfold calculate_window_end, window_end_spec.
+  destruct align as [a|]; cbn zeta.
+  2:{ repeat match goal with |- context [if ?c then _ else _] => destruct c eqn:? end;
+      f_equal; lia. }
+  pose proof (Z.div_mod (now - a) period ltac:(lia)) as Hdm.
+  pose proof (Z.mod_pos_bound (now - a) period Hp) as Hb.
+  set (e := (now - a) mod period) in *. set (q := (now - a) / period) in *.
+  repeat match goal with |- context [if ?c then _ else _] => destruct c eqn:? end;
+    try (f_equal; nia); try (exfalso; nia).
 Qed.
 
 (* exactly aligned creation instant: no extra period *)
@@ -89,15 +98,12 @@ Lemma rfinal_wend : forall period es st,
 Proof.
   induction es as [|e es IH]; intros st; cbn [rfinal].
   - unfold nticks; cbn. lia.
-  - rewrite IH. unfold nticks. destruct e as [l f d|s|s]; cbn [rstep fst r_wend filter is_tick length].
-    + lia.
-    + destruct (zmem s (r_series st)); cbn; lia.
-    + lia.
+  - rewrite IH. unfold nticks. destruct e as [l f d du|s|s]; cbn [rstep fst r_wend filter is_tick length]; lia.
 Qed.
 
 (* what one tick hands out: every registered series whose source is alive gets the current window end *)
-Lemma tick_outputs : forall period st late fail dead,
-  fst (snd (rstep period st (Tick late fail dead))) =
+Lemma tick_outputs : forall period st late fail dead during,
+  fst (snd (rstep period st (Tick late fail dead during))) =
   map (fun s => (s, r_wend st)) (filter (fun s => negb (zmem s dead)) (r_series st)).
 Proof. reflexivity. Qed.
 
@@ -110,15 +116,15 @@ Qed.
 
 (* k-th tick: the event after prefix [pre] is a tick; every pair it hands out carries
    w + (#ticks in pre) * period, and every registered live series is served *)
-Theorem kth_tick : forall period st pre late fail dead post,
-  let es := pre ++ Tick late fail dead :: post in
-  let o := nth (length pre) (rrun period st es) ([], false) in
+Theorem kth_tick : forall period st pre late fail dead during post,
+  let es := pre ++ Tick late fail dead during :: post in
+  let o := nth (length pre) (rrun period st es) ([], OOk) in
   let stk := rfinal period st pre in
   (forall s t, In (s, t) (fst o) -> t = r_wend st + Z.of_nat (nticks pre) * period) /\
   (forall s, In s (r_series stk) -> ~ In s dead -> In (s, r_wend st + Z.of_nat (nticks pre) * period) (fst o)).
 Proof.
-  intros period st pre late fail dead post es o stk.
-  assert (Ho : o = snd (rstep period stk (Tick late fail dead))).
+  intros period st pre late fail dead during post es o stk.
+  assert (Ho : o = snd (rstep period stk (Tick late fail dead during))).
   { unfold o, es. rewrite rrun_app. rewrite app_nth2; rewrite rrun_length; [|lia].
     rewrite Nat.sub_diag. cbn. reflexivity. }
   assert (Hw : r_wend stk = r_wend st + Z.of_nat (nticks pre) * period) by apply rfinal_wend.
@@ -134,7 +140,7 @@ Theorem shared_timestamp : forall period st es o s1 t1 s2 t2,
 Proof.
   intros period st es. revert st. induction es as [|e es IH]; intros st o s1 t1 s2 t2 Ho H1 H2; cbn in Ho; [contradiction|].
   destruct (rstep period st e) as [st' o'] eqn:E. cbn in Ho. destruct Ho as [<-|Ho].
-  - destruct e as [l f d|s|s]; cbn in E; inversion E; subst; cbn in H1, H2; try contradiction.
+  - destruct e as [l f d du|s|s]; cbn in E; inversion E; subst; cbn in H1, H2; try contradiction.
     apply in_map_iff in H1. apply in_map_iff in H2. destruct H1 as [x [E1 _]]. destruct H2 as [y [E2 _]].
     congruence.
   - eapply IH; eauto.
@@ -152,17 +158,28 @@ Proof.
   destruct (IH st') as [A B]. rewrite A, B. auto.
 Qed.
 
-(* the increment happens on the error path too: whatever fails, the next tick carries w + period *)
-Theorem error_path : forall period st late fail dead,
-  let '(st', (outs, raised)) := rstep period st (Tick late fail dead) in
-  r_wend st' = r_wend st + period /\ r_series st' = r_series st /\
-  (raised = true <-> exists s, In s (r_series st) /\ (In s fail \/ In s dead)).
+Lemma reported_map_filter : forall (f : Z -> bool) l, reported l (map f l) = filter f l.
+Proof. induction l as [|x l IH]; cbn; auto. destruct (f x); rewrite IH; reflexivity. Qed.
+
+(* The increment happens on EVERY way out of the loop iteration: normal, ResamplingError, and the IndexError
+   that kills resample() when a series was added while the sinks were awaited.  The latter happens exactly when
+   the dictionary has grown; with an undisturbed gather the error names exactly the failing / stopped series. *)
+Theorem error_path : forall period st late fail dead during,
+  let '(st', (outs, how)) := rstep period st (Tick late fail dead during) in
+  r_wend st' = r_wend st + period /\
+  r_series st' = fold_left apply_change during (r_series st) /\
+  (how = OCrash <-> (length (r_series st) < length (r_series st'))%nat) /\
+  (during = [] ->
+   how = match filter (fun s => zmem s fail || zmem s dead) (r_series st) with [] => OOk | l => ORaised l end).
 Proof.
-  intros. cbn. repeat split; auto.
-  - intros H. apply existsb_exists in H. destruct H as [s [Hs H]]. exists s. split; auto.
-    apply orb_true_iff in H. rewrite !zmem_In in H. exact H.
-  - intros [s [Hs H]]. apply existsb_exists. exists s. split; auto.
-    apply orb_true_iff. rewrite !zmem_In. exact H.
+  intros. cbn [rstep]. split; [reflexivity|]. split; [reflexivity|]. cbn [r_series]. split.
+  - unfold tick_outcome. rewrite map_length.
+    destruct (length (r_series st) <? length (fold_left apply_change during (r_series st)))%nat eqn:E.
+    + apply Nat.ltb_lt in E. tauto.
+    + apply Nat.ltb_ge in E. split; [|lia].
+      destruct (reported _ _); discriminate.
+  - intros ->. cbn [fold_left]. unfold tick_outcome. rewrite map_length, Nat.ltb_irrefl.
+    rewrite reported_map_filter. reflexivity.
 Qed.
 
 (* ---- no skip, no duplicate: a series that stays registered gets consecutive window ends *)
@@ -170,7 +187,7 @@ Qed.
 Definition never_removed (s : Z) (es : list revent) : Prop :=
   forall e, In e es -> match e with
                        | Remove x => x <> s
-                       | Tick _ _ dead => ~ In s dead
+                       | Tick _ _ dead during => ~ In s dead /\ ~ In (CRemove s) during
                        | Add _ => True
                        end.
 
@@ -183,23 +200,56 @@ Proof.
     + apply IHx; auto. intros A. apply Hn. right; exact A.
 Qed.
 
+Lemma add_series_nodup : forall s l, NoDup l -> NoDup (add_series s l).
+Proof.
+  intros s l H. unfold add_series. destruct (zmem s l) eqn:M; auto.
+  apply nodup_snoc; auto. rewrite <- zmem_In. congruence.
+Qed.
+
+Lemma remove_series_nodup : forall s l, NoDup l -> NoDup (remove_series s l).
+Proof. intros. unfold remove_series. apply NoDup_filter. auto. Qed.
+
+Lemma changes_nodup : forall du l, NoDup l -> NoDup (fold_left apply_change du l).
+Proof.
+  induction du as [|c du IH]; intros l H; cbn; auto.
+  apply IH. destruct c; cbn; [apply add_series_nodup|apply remove_series_nodup]; auto.
+Qed.
+
+Lemma add_series_stays : forall s x l, In s l -> In s (add_series x l).
+Proof. intros. unfold add_series. destruct (zmem x l); auto. apply in_or_app. auto. Qed.
+
+Lemma remove_series_stays : forall s x l, In s l -> x <> s -> In s (remove_series x l).
+Proof.
+  intros s x l H Hne. unfold remove_series. apply filter_In. split; auto.
+  destruct (s =? x) eqn:E; auto. apply Z.eqb_eq in E. subst. contradiction.
+Qed.
+
+Lemma changes_stay : forall du l s, In s l -> ~ In (CRemove s) du -> In s (fold_left apply_change du l).
+Proof.
+  induction du as [|c du IH]; intros l s H Hn; cbn; auto.
+  apply IH; [|intros A; apply Hn; right; exact A].
+  destruct c as [x|x]; cbn; [apply add_series_stays; auto|].
+  apply remove_series_stays; auto. intros ->. apply Hn. left. reflexivity.
+Qed.
+
 Lemma series_nodup_step : forall period st e,
   NoDup (r_series st) -> NoDup (r_series (fst (rstep period st e))).
 Proof.
-  intros period st e H. destruct e as [l f d|s|s]; cbn; auto.
-  - destruct (zmem s (r_series st)) eqn:M; cbn; auto.
-    apply nodup_snoc; auto. rewrite <- zmem_In. congruence.
-  - apply NoDup_filter. exact H.
+  intros period st e H. destruct e as [l f d du|s|s]; cbn.
+  - apply changes_nodup. exact H.
+  - apply add_series_nodup. exact H.
+  - apply remove_series_nodup. exact H.
 Qed.
 
 Lemma series_stays : forall period st e s,
   In s (r_series st) ->
-  match e with Remove x => x <> s | _ => True end ->
+  match e with Remove x => x <> s | Tick _ _ _ du => ~ In (CRemove s) du | _ => True end ->
   In s (r_series (fst (rstep period st e))).
 Proof.
-  intros period st e s H Hne. destruct e as [l f d|x|x]; cbn; auto.
-  - destruct (zmem x (r_series st)); cbn; auto. apply in_or_app. auto.
-  - apply filter_In. split; auto. destruct (s =? x) eqn:E; auto. apply Z.eqb_eq in E. subst. contradiction.
+  intros period st e s H Hne. destruct e as [l f d du|x|x]; cbn.
+  - apply changes_stay; auto.
+  - apply add_series_stays. exact H.
+  - apply remove_series_stays; auto.
 Qed.
 
 Lemma one_output : forall s w dead l,
@@ -223,13 +273,6 @@ Proof.
     + destruct Hin as [->|Hin]; [rewrite Z.eqb_refl in E; discriminate|]. apply IH; auto.
 Qed.
 
-Lemma no_output_nontick : forall period st e s,
-  is_tick e = false ->
-  map snd (filter (fun p : Z * Z => fst p =? s) (fst (snd (rstep period st e)))) = [].
-Proof.
-  intros period st e s H. destruct e; cbn in *; auto; discriminate.
-Qed.
-
 Theorem no_skip_no_dup : forall period es st s,
   NoDup (r_series st) -> In s (r_series st) -> never_removed s es ->
   emitted s (rrun period st es) =
@@ -243,17 +286,16 @@ Proof.
   assert (Hnr' : never_removed s es) by (intros x Hx; apply Hnr; right; exact Hx).
   pose proof (Hnr e (or_introl eq_refl)) as He.
   rewrite IH; [|subst st'; apply series_nodup_step; auto| |exact Hnr'].
-  2:{ subst st'. apply series_stays; auto. destruct e; auto. }
-  destruct e as [l f d|x|x].
+  2:{ subst st'. apply series_stays; auto. destruct e; auto. tauto. }
+  destruct e as [l f d du|x|x].
   - (* tick *)
-    rewrite Ho. cbn [rstep snd fst]. rewrite one_output; auto.
+    rewrite Ho. cbn [rstep snd fst]. rewrite one_output; auto; [|tauto].
     unfold nticks. cbn [filter is_tick length]. fold (nticks es).
     cbn [seq map app]. f_equal; [lia|].
     rewrite <- seq_shift, map_map. apply map_ext. intros k.
     rewrite Hst'. cbn [rstep fst r_wend]. lia.
   - rewrite Ho. cbn [rstep snd fst filter map app]. unfold nticks. cbn [filter is_tick].
-    fold (nticks es). apply map_ext. intros k. rewrite Hst'. cbn.
-    destruct (zmem x (r_series st)); reflexivity.
+    fold (nticks es). apply map_ext. intros k. rewrite Hst'. reflexivity.
   - rewrite Ho. cbn [rstep snd fst filter map app]. unfold nticks. cbn [filter is_tick].
     fold (nticks es). apply map_ext. intros k. rewrite Hst'. reflexivity.
 Qed.
@@ -270,17 +312,16 @@ Theorem timeline_from_creation : forall now period align es o s t,
 Proof.
   intros now period align es o s t Hp we Ho Hin.
   assert (Hk : exists k, 0 <= k /\ t = fst we + k * period).
-  { apply In_nth with (d := ([], false)) in Ho. destruct Ho as [n [Hn Ho]].
+  { apply In_nth with (d := ([], OOk)) in Ho. destruct Ho as [n [Hn Ho]].
     rewrite rrun_length in Hn.
-    destruct (nth_split es (Tick 0 [] []) Hn) as [pre [post [Hes Hlen]]].
-    remember (nth n es (Tick 0 [] [])) as e eqn:Ee.
-    destruct e as [l f d|x|x].
-    - pose proof (kth_tick period (rinit now period align we) pre l f d post) as K.
+    destruct (nth_split es (Tick 0 [] [] []) Hn) as [pre [post [Hes Hlen]]].
+    remember (nth n es (Tick 0 [] [] [])) as e eqn:Ee.
+    destruct e as [l f d du|x|x].
+    - pose proof (kth_tick period (rinit now period align we) pre l f d du post) as K.
       cbn zeta in K. rewrite <- Hes, Hlen, Ho in K. destruct K as [K _].
       exists (Z.of_nat (nticks pre)). split; [lia|]. apply (K s t Hin).
     - exfalso. subst es. rewrite rrun_app, app_nth2, rrun_length in Ho by (rewrite rrun_length; lia).
-      rewrite Hlen, Nat.sub_diag in Ho. cbn in Ho.
-      destruct (zmem x (r_series (rfinal period (rinit now period align we) pre))); cbn in Ho; subst o; inversion Hin.
+      rewrite Hlen, Nat.sub_diag in Ho. cbn in Ho. subst o. inversion Hin.
     - exfalso. subst es. rewrite rrun_app, app_nth2, rrun_length in Ho by (rewrite rrun_length; lia).
       rewrite Hlen, Nat.sub_diag in Ho. cbn in Ho. subst o. inversion Hin. }
   split; [exact Hk|]. destruct Hk as [k [Hk0 Hk]].
@@ -308,8 +349,8 @@ Lemma window_end_first_translated : forall now period align,
               forall g, (g - a) mod period = 0 -> now + period <= g -> fst we <= g
   end.
 Proof.
-  intros now period align. unfold window_end. rewrite window_end_as_translated.
-  exact (window_end_first now period align).
+  intros now period align Hp. unfold window_end. rewrite window_end_as_translated by exact Hp.
+  exact (window_end_first now period align Hp).
 Qed.
 
 Lemma timeline_from_creation_translated : forall now period align es o s t,
@@ -320,6 +361,6 @@ Lemma timeline_from_creation_translated : forall now period align es o s t,
   now + period <= t /\
   match align with Some a => (t - a) mod period = 0 | None => (t - now) mod period = 0 end.
 Proof.
-  intros now period align es o s t. unfold window_end. rewrite window_end_as_translated.
-  exact (timeline_from_creation now period align es o s t).
+  intros now period align es o s t Hp. unfold window_end. rewrite window_end_as_translated by exact Hp.
+  exact (timeline_from_creation now period align es o s t Hp).
 Qed.
